@@ -110,3 +110,12 @@ func sortedKeys(m map[string]*big.Int) []string {
 	sort.Strings(ks)
 	return ks
 }
+
+func sortedNames(m map[string][]byte) []string {
+	out := make([]string, 0, len(m))
+	for k := range m {
+		out = append(out, k)
+	}
+	sort.Strings(out)
+	return out
+}
